@@ -2,7 +2,7 @@
 from hypothesis import strategies as st
 
 from harness import build, gen, simnet, wire, httpref
-from harness.runner import Prop, held, failed
+from harness.runner import Prop, Enumeration, held, failed
 from props.c01 import effective_seg, compare_events
 
 
@@ -29,6 +29,57 @@ def lib_frames(sim):
     return out
 
 
+# ---- scheduled scenarios: the Pong must precede the application's reaction even while another
+# thread is in the middle of a send (the event loop then has to wait for the write lock) ----------
+
+def _sched_scenarios():
+    from props import racecommon as rc
+    pings = (rc.B(wire.PING, b"p-one") + rc.B(wire.PING, b"p-two")).hex()
+    P = rc.payload_for
+    base = {"threads": {"A": [["send_text", P("A", 0)], ["send_binary", P("A", 1)]]},
+            "loop": {"bytes": pings, "idle_waits": 0, "react": {"ping": ["send_text", "re:"]}},
+            "copts": {"ping_rate": 0}}
+    return {"pong_vs_sender_plain": dict(base, deflate=False), "pong_vs_sender_deflate": dict(base, deflate=True)}
+
+
+def _sched_judge(scn, out):
+    from harness import deflateref
+    if out.aborted:
+        return "hang", out.aborted
+    for name, err in out.errors.items():
+        return "escaped_exception", "thread %s: %r" % (name, err)
+    for name, st_ in out.states.items():
+        if st_ not in ("done", "parked"):
+            return "deadlock", "thread %s ended in state %s" % (name, st_)
+    frames, problems = wire.decode_client_frames(out.wire)
+    if problems:
+        return "torn_library_write", "; ".join(problems[:3])
+    peer = deflateref.Peer()
+    seq = []
+    for f in frames:
+        body = f.payload
+        if f.rsv1:
+            try:
+                body = peer.inflate(body)
+            except deflateref.InflateError as error:
+                return "torn_library_write", "peer cannot inflate: %s" % error
+        seq.append((f.opcode, body))
+    for p in (b"p-one", b"p-two"):
+        pongs = [i for i, (op, b) in enumerate(seq) if op == wire.PONG and b == p]
+        reacts = [i for i, (op, b) in enumerate(seq) if op == wire.TEXT and b == b"re:" + p]
+        if len(pongs) != 1:
+            return "pong_count", "%d Pongs for Ping %r; wire %s" % (len(pongs), p, [(o, b[:10]) for o, b in seq])
+        if len(reacts) != 1:
+            return "harness", "reaction to %r written %d times" % (p, len(reacts))
+        if pongs[0] > reacts[0]:
+            return "pong_order", ("the Pong for Ping %r was written AFTER the frame the application sent in reaction to "
+                                  "that Ping event; wire order %s" % (p, [(o, b[:10]) for o, b in seq]))
+    order = [i for i, (op, b) in enumerate(seq) if op == wire.PONG]
+    if [seq[i][1] for i in order] != [b"p-one", b"p-two"]:
+        return "pong_order", "Pongs out of order: %s" % [seq[i][1] for i in order]
+    return None
+
+
 class C14(Prop):
     id = "C14"
     level = "exploration"
@@ -40,7 +91,9 @@ class C14(Prop):
             "its Ping event is yielded (hence before any application write made in reaction to it); none with auto_pong off; a "
             "failed or refused pong leaves the event stream identical to the fault-free run. Non-trivial = >= 2 Pings with "
             "different payloads, or a Ping inside a fragmented message, or a Ping after close().")
-    assumptions = ("library writes are told apart from application writes by who is running when sendall is called",)
+    assumptions = ("library writes are told apart from application writes by who is running when sendall is called",
+                   "the scheduled stage (a sender thread racing with the event loop's pong) uses the deterministic scheduler "
+                   "of C11/C12 at source-line granularity, every thread order x every single preemption")
     examples = {"quick": 3000, "thorough": 60000}
 
     def strategy(self, tier):
@@ -60,6 +113,28 @@ class C14(Prop):
             "seg": gen.segmentation(),
         })
 
+    def enumerations(self, tier):
+        from props.c11 import C11
+
+        class _Sched(C11):
+            id = "C14"
+
+            def scenarios(self_inner):
+                return _sched_scenarios()
+
+            def judge(self_inner, scn, out):
+                return _sched_judge(scn, out)
+
+            def bound2(self_inner):
+                return []
+        self._sched = _Sched()
+        inner = self._sched.enumerations(tier)[0]
+
+        def cases():
+            for c in inner.make():
+                yield dict(c, sched=True)
+        return [Enumeration("pong_before_reaction_all_single_preemptions", cases, exhaustive=True)]
+
     def scenario(self, case, fault_ordinal=None):
         built = build.build_session(case["msgs"])
         reply_len = len(httpref.build_reply(None, b""))
@@ -77,6 +152,12 @@ class C14(Prop):
         return scn, built
 
     def run_case(self, case):
+        if case.get("sched"):
+            if not hasattr(self, "_sched"):
+                self.enumerations("quick")
+            inner = dict(case)
+            inner.pop("sched")
+            return self._sched.run_case(inner)
         scn, built = self.scenario(case)
         tr = simnet.run_scenario(scn)
         res = self.check(case, tr, built, None)
